@@ -9,3 +9,31 @@ mod utils;
 pub mod instructions;
 
 pub type Result<T> = core::result::Result<T, errors::UnifiedError>;
+
+// Verification hook H1 (feature `verif` only): re-export the already-`pub` items of the
+// private modules so that an external harness can call the ported functions and views directly.
+#[cfg(feature = "verif")]
+#[doc(hidden)]
+pub mod verif_export {
+    pub mod ported {
+        pub use super::super::ported::{
+            manager_liquidity_manager, manager_tick_array_manager, position,
+            util_remaining_accounts_utils, util_shared, util_token,
+        };
+    }
+    pub mod state {
+        pub use super::super::state::*;
+    }
+    pub mod utils {
+        pub use super::super::utils::{account_info_iter, account_load, verify};
+    }
+    pub mod constants {
+        pub use super::super::constants::*;
+    }
+    pub mod errors {
+        pub use super::super::errors::*;
+    }
+    pub mod events {
+        pub use super::super::events::*;
+    }
+}
